@@ -384,7 +384,16 @@ func init() {
 			panic(abort{"codec model: unmarshal of bytes that were not produced by the codec"})
 		}
 		p := a[1].(IfaceVal).V.(PtrVal)
-		p.store(e.normalise(copyValue(bz.Blob)))
+		if p.Root == nil {
+			panic(goPanic{"unmarshal into nil pointer"})
+		}
+		nv := e.normalise(copyValue(bz.Blob))
+		if old := p.loadRef(); !isZeroValue(old) {
+			// generated proto Unmarshal does not reset the message: fields absent from the wire keep their
+			// value, bytes fields are decoded in place into the old backing array, repeated fields append
+			nv = e.protoMerge(old, nv)
+		}
+		p.store(nv)
 		return nil
 	}
 	modelMethods["codec.MustMarshalBinaryBare"] = marshal
@@ -443,6 +452,7 @@ func init() {
 		return nil
 	})
 	reg("(github.com/cosmos/cosmos-sdk/x/params/types.Subspace).HasKeyTable", func(e *Exec, a []Value) Value { return e.tt.Bool(true) })
+	reg("(github.com/cosmos/cosmos-sdk/x/params/types.Subspace).WithKeyTable", func(e *Exec, a []Value) Value { return a[0] })
 }
 
 func (e *Exec) concreteBytes(v Value) []byte {
@@ -584,3 +594,93 @@ func (e *Exec) normalise(v Value) Value {
 }
 
 var _ = big.NewInt
+
+func isZeroValue(v Value) bool {
+	switch x := v.(type) {
+	case nil:
+		return true
+	case *Term:
+		return x.IsConst() && x.U == 0 && (x.Big == nil || x.Big.Sign() == 0)
+	case StrVal:
+		return len(x.B) == 0
+	case SliceVal:
+		return x.Arr == nil || x.Len == 0
+	case *StructVal:
+		for _, f := range x.Fields {
+			if !isZeroValue(f) {
+				return false
+			}
+		}
+		return true
+	case *BigVal:
+		return x.Nil || (x.T.IsConst() && x.T.Big.Sign() == 0)
+	case TimeVal:
+		return x.NS.IsConst() && x.NS.Big.Sign() == 0
+	case PtrVal:
+		return x.Root == nil
+	case MapRef:
+		return x.M == nil
+	case IfaceVal:
+		return x.T == nil
+	}
+	return false
+}
+
+// protoMerge models gogoproto's generated Unmarshal into a message that already holds values.
+func (e *Exec) protoMerge(old, nv Value) Value {
+	switch n := nv.(type) {
+	case *StructVal:
+		o, ok := old.(*StructVal)
+		if !ok || len(o.Fields) != len(n.Fields) {
+			return nv
+		}
+		r := &StructVal{Fields: make([]Value, len(n.Fields))}
+		for i := range n.Fields {
+			r.Fields[i] = e.protoMerge(o.Fields[i], n.Fields[i])
+		}
+		return r
+	case *Term:
+		o, ok := old.(*Term)
+		if !ok || o.Sort != n.Sort {
+			return nv
+		}
+		var zero *Term
+		switch n.Sort {
+		case SBool:
+			zero = e.tt.Bool(false)
+		case SInt:
+			zero = e.tt.Int64(0)
+		default:
+			zero = e.tt.BV(n.Sort.Bits(), 0)
+		}
+		return e.tt.Ite(e.tt.Eq(n, zero), o, n) // proto3 does not encode zero scalars
+	case StrVal:
+		if len(n.B) == 0 {
+			return old
+		}
+		return nv
+	case SliceVal:
+		o, ok := old.(SliceVal)
+		if !ok {
+			return nv
+		}
+		if n.Arr == nil || n.Len == 0 {
+			return old
+		}
+		elems := n.elems()
+		if t, isT := elems[0].(*Term); isT && t.Sort == SBV8 { // bytes field: append(old[:0], data...)
+			if o.Arr != nil && o.Cap >= n.Len {
+				arr := o.Arr.V.(*ArrayVal)
+				for i, el := range elems {
+					arr.Elems[o.Off+i] = el
+				}
+				return SliceVal{Arr: o.Arr, Off: o.Off, Len: n.Len, Cap: o.Cap}
+			}
+			return nv
+		}
+		// repeated field: appended to what is there
+		all := append(append([]Value{}, o.elems()...), elems...)
+		return SliceVal{Arr: &Cell{V: &ArrayVal{Elems: all}}, Len: len(all), Cap: len(all)}
+	}
+	return nv
+}
